@@ -10,12 +10,13 @@ Open Scope Z_scope.
 (* api/exceptions.py (the classes the validator raises) and the one builtin class *)
 Inductive exn :=
 | InvalidParameter | InvalidSimulation | InvalidModes | InvalidProgram | InvalidState
-| PiquassoException | ValueError.
+| PiquassoException | ValueError
+| InactiveModes.   (* api/exceptions.py (repair): subclass of InvalidModes and of ValueError *)
 
 Definition exn_code (e : exn) : Z :=
   match e with
   | InvalidParameter => 1 | InvalidSimulation => 2 | InvalidModes => 3 | InvalidProgram => 4
-  | InvalidState => 5 | PiquassoException => 6 | ValueError => 7
+  | InvalidState => 5 | PiquassoException => 6 | ValueError => 7 | InactiveModes => 8
   end.
 
 Definition is_piquasso (e : exn) : bool := match e with ValueError => false | _ => true end.
@@ -66,7 +67,7 @@ Definition exn_of (r : rule) : exn :=
   | RPrepFirst => InvalidSimulation
   | RMeasLast => InvalidSimulation
   | RActiveArity => InvalidProgram
-  | RActive => InvalidModes
+  | RActive => InactiveModes
   | RShotsNone => InvalidParameter
   | RInitType => InvalidState
   | RInitD => InvalidState
